@@ -1,13 +1,13 @@
 // C17 (part 3 of 3) -- NearestNeighbor: the vantage-point tree returns exactly what a brute-force scan returns,
 // and survives Save/Load.
 //
-// Engine: E2-style exhaustive enumeration.  EVERY point sequence of length <= 4 (quick) / <= 5 (thorough) over the
+// Engine: E2-style exhaustive enumeration.  EVERY point sequence of length <= 4 (quick) / <= 6 (thorough) over the
 // integer positions {0..4} (duplicates included) x EVERY legal bucket size 0..maxbucket x EVERY query in {-1..5}
 // x k in 0..6 x maxdist in {default, 0, 1, 2} x mindist in {-1, 0, 1} x exhaustive in {0,1} (x tol in {0,1} in a
 // separate subcheck) is run on the real header-only class with dist_t = int, pos_t = int, |x - y|, and on three
 // objects: the one built by Initialize, the one re-created by Save/Load in text mode (operator<< / operator>>) and
 // the one re-created by Save/Load in binary mode.  A second metric space (2-D L1 on the 3x3 grid, dist_t = double)
-// repeats the search check on every sequence of length <= 3 / <= 4.
+// repeats the search check on every sequence of length <= 3 / <= 5.
 // Reference: a brute-force scan written here (sort of all distances), nothing from the class is reused.
 // Nothing is sampled.
 #include "mc/ctx.hpp"
@@ -202,7 +202,7 @@ int main(int argc, char** argv) {
   const bool T = ctx.thorough();
   const DistI distI; const DistL1 distL;
   const int NPOS = 5;
-  const int LMAX = T ? 5 : 4;
+  const int LMAX = T ? 6 : 4;
   const int MAXB = NNI::maxbucket;          // 6 for dist_t = int
   if (MAXB != 2 + 4 * (int)sizeof(int) / (int)sizeof(int)) { fprintf(stderr, "unexpected maxbucket\n"); return 2; }
 
@@ -398,7 +398,7 @@ int main(int argc, char** argv) {
   // ================================================================ 5. second metric space: 2-D L1 on the 3x3 grid, double distances
   ctx.sub("nn-l1-search");
   {
-    const int L2 = T ? 4 : 3;
+    const int L2 = T ? 5 : 3;
     const int MB = NND::maxbucket;            // 10 for dist_t = double
     // coordinates chosen so that every |dx|+|dy| is exact in double (a true metric) while 1+2^-52 needs all 17 digits
     // in the text form of Save
